@@ -256,7 +256,8 @@ func genValueInterface(n *node) func(*frame) reflect.Value {
 			return v
 		}
 
-		return reflect.ValueOf(valueInterface{nod, v})
+		// The interface value holds a copy of the value, as a variable does.
+		return reflect.ValueOf(valueInterface{nod, fixArg(v)})
 	}
 }
 
